@@ -220,7 +220,7 @@ Definition decode_case (l : list N) : option (cfg * list op) := pall p_case l.
 Definition comp_digit (x : comp) : N :=
   match enc_comp x with [tag; arg] => tag * 4503599627370496 + arg + 1 | _ => 0 end.   (* 2^52 *)
 Definition maddr_key (a : maddr) : N :=
-  fold_left (fun acc x => acc * 72057594037927936 + comp_digit x) a 0.                   (* 2^56 *)
+  fold_left (fun acc x => N.shiftl acc 56 + comp_digit x) a 0.                           (* radix 2^56 *)
 
 Definition enc_entry (x : maddr * Z) : list N := enc_maddr (fst x) ++ [enc_score (snd x)].
 Definition dump (s : store) : list N :=
